@@ -4,6 +4,7 @@
      rej  <mode> <reason> <hex>    generator-built malformed text that must be rejected
      mut  <mode> <hex>             mutated / truncated text (no expectation: correspondence + no crash)
      ovf  <mode> <hex>             declared sizes whose tables overflow size_t
+     two  <mode2> <mode1> <hex1> <hex2>   one parser object reads text1 then text2 (judged: the second result)
    Impl:  OK S A [O] disc nT T… nR R… [nW W…] | BADSHAPE … | THROW <type> | CRASH|SANITIZER|TIMEOUT …
    O (oracle) checks run before C (correspondence) comparisons. *)
 open Model
@@ -122,16 +123,78 @@ let diff_model (i : int * int * int * xnum * xnum list * xnum list * xnum list) 
 let exn_name (e : exn) = match e with
   | E_incomplete -> "incomplete" | E_too_large -> "too_large" | E_bad_alloc -> "bad_alloc" | E_at -> "at"
   | E_stod -> "stod" | E_stoul -> "stoul" | E_index_high -> "index_high" | E_vec_count -> "vec_count"
-  | E_row_args -> "row_args" | E_colons -> "colons"
+  | E_row_args -> "row_args" | E_colons -> "colons" | E_discount -> "discount" | E_probability -> "probability"
+
+(* load <mode> <ok|bad> <hex>: MDP::parseCassandra / POMDP::parseCassandra (parser + constructor validation) *)
+let judge_load (c : cursor) (r : cursor) : bool * string =
+  let mode = next c in
+  let pomdp = (mode = "pomdp") in
+  let label = next c in
+  let site = if pomdp then "POMDP::parseCassandra" else "MDP::parseCassandra" in
+  let text = str_of_string (unhex c.toks.(Array.length c.toks - 1)) in
+  let impl = (match next r with
+      | "LOK" ->
+        let s = next_int r in let a = next_int r in let o = if pomdp then next_int r else 0 in
+        let d = next_x r in let t = next_list r next_x in let er = next_list r next_x in
+        let w = if pomdp then next_list r next_x else [] in
+        `Ok (s, a, o, d, t, er, w)
+      | "THROW" -> `Throw (next r)
+      | ("CRASH" | "SANITIZER" | "TIMEOUT") as k -> oracle_fail "no_UB" "load" ("implementation terminated abnormally: " ^ k)
+      | t -> failwith ("bad impl output " ^ t)) in
+  (* O: the generator's label *)
+  (match label, impl with
+   | "bad", `Ok _ -> oracle_fail "incomplete_rejected" site "a text with invalid probabilities / discount was accepted"
+   | "ok", `Throw ty -> oracle_fail "load_accepts_valid" site ("a valid model file was rejected with " ^ ty)
+   | _ -> ());
+  let m = load_model true pomdp text in
+  (match m, impl with
+   | Ok mm, `Ok (s, a, o, d, t, er, w) ->
+     let cmp name xs vs = if List.length xs <> List.length vs then disagree "load_tables" site (name ^ ": sizes differ")
+       else List.iteri (fun k (x, v) -> if not (val_matches x v) then
+                           disagree "load_tables" site (Printf.sprintf "%s[%d] expected %s" name k (string_of_val v))) (List.combine xs vs) in
+     if s <> int_of_nat mm.mSn || a <> int_of_nat mm.mAn || o <> int_of_nat mm.mOn then disagree "load_tables" site "sizes differ";
+     if not (val_matches d mm.mDisc) then disagree "load_tables" site "discount differs";
+     cmp "T" t (flat mm.mT); cmp "W" w (flat mm.mW);
+     (* expected rewards sum_s' R[s][a][s'] * T[s][a][s'] *)
+     let rows l = List.concat l in
+     let tr = rows mm.mT and rr = rows mm.mR in
+     List.iteri (fun k (x, (trow, rrow)) ->
+         let fin = List.for_all (fun v -> match v with VQ _ -> true | _ -> false) rrow in
+         if fin then begin
+           let e = List.fold_left2 (fun acc tv rv -> match tv, rv with VQ p, VQ q -> q_add acc (q_mul p q) | _ -> acc) q_zero trow rrow in
+           match x with
+           | Fin xe -> if not (q_close xe e) then disagree "load_tables" site (Printf.sprintf "expected reward %d differs" k)
+           | _ -> disagree "load_tables" site "expected reward not finite"
+         end) (List.combine er (List.combine tr rr))
+   | Throw _, `Throw _ -> ()
+   | Throw e, `Ok _ -> disagree "load_accept_reject" site ("model throws " ^ exn_name e ^ ", impl accepts")
+   | Ok _, `Throw ty -> disagree "load_accept_reject" site ("model accepts, impl throws " ^ ty)
+   | Unsup, _ -> ()
+   | _, _ -> disagree "model_UB" site "model reports UB / NoFuel");
+  (match label, m with
+   | "bad", Ok _ -> failwith "generator label 'bad' but the model accepts"
+   | "ok", Throw e -> failwith ("generator label 'ok' but the model throws " ^ exn_name e)
+   | _ -> ());
+  (true, "load." ^ (match m with Ok _ -> "ok" | Throw e -> exn_name e | _ -> "other"))
 
 let judge _id (c : cursor) (r : cursor) : bool * string =
   let kind = next c in
+  if kind = "load" then judge_load c r else
   let mode = next c in
   let pomdp = (mode = "pomdp") in
   let site = if pomdp then "parsePOMDP" else "parseMDP" in
   let text_hex = c.toks.(Array.length c.toks - 1) in
   let text = str_of_string (unhex text_hex) in
   let impl = read_impl pomdp r in
+  (* O: re-use of the parser object must not change the answer (reuse_independent, on the implementation) *)
+  if kind = "two" then begin
+    expect r "|";
+    let fresh = read_impl pomdp r in
+    let same = (match impl, fresh with
+        | IThrow _, IThrow _ -> true
+        | a, b -> a = b) in
+    if not same then oracle_fail "reuse_independent" "CassandraParser" "the second text is read differently by a re-used parser object and by a fresh one"
+  end;
   (* O0: no input may crash the parser *)
   (match impl with
    | ICrash k -> oracle_fail "no_UB" kind ("implementation terminated abnormally: " ^ k)
@@ -171,7 +234,21 @@ let judge _id (c : cursor) (r : cursor) : bool * string =
           else oracle_fail "incomplete_rejected" site ("malformed text (" ^ reason ^ ") was accepted"))
      | _ -> ());
     (* C: the (repaired) model against the implementation *)
-    let m = parse_text true pomdp text in
+    let m =
+      if kind = "two" then begin
+        (* one parser object re-used: the state-passing model, started from what text1 left behind *)
+        let _mode1 = next c in
+        let text1 = str_of_string (unhex c.toks.(Array.length c.toks - 2)) in
+        let st0 = { stS = []; stA = []; stO = [] } in
+        let m2 = parse_text_st true pomdp (state_after st0 (lex_text text1)) text in
+        (* reuse_independent: it must coincide with a fresh parser's answer *)
+        (match m2, parse_text true pomdp text with
+         | Ok a, Ok b -> if flat a.mT <> flat b.mT || flat a.mR <> flat b.mR || flat a.mW <> flat b.mW then
+             disagree "reuse_independent" site "state-passing model differs from the fresh-parser model"
+         | Throw _, Throw _ | Unsup, Unsup -> ()
+         | _ -> disagree "reuse_independent" site "state-passing model differs from the fresh-parser model");
+        m2
+      end else parse_text true pomdp text in
     (match m, impl with
      | Ok mm, IOk (s, a, o, d, t, rw, w) ->
        (match diff_model (s, a, o, d, t, rw, w) mm with
